@@ -200,6 +200,20 @@ class World:
             if attr == "message":
                 return o.args[0] if o.args else Opaque("message")
             return Opaque("exc-attr")
+        if attr == "limit_denominator" and (is_sym_real(o) or is_sym_int(o) or isinstance(o, (int, Fraction))):
+            # Fraction.limit_denominator(max_denominator=10**6): SOME fraction with a denominator of at most the bound, the
+            # number itself when it is an integer (an over-approximation: which fraction is not modelled)
+            def limit(exx, a, kw, o=o):
+                from . import builtins_impl as BI
+                bound = a[0] if a else kw.get("max_denominator", 1000000)
+                x = BI.to_real(o)
+                r = exx.fresh("limited", z3.RealSort())
+                d = exx.fresh("limited_den", I)
+                n_ = exx.fresh("limited_num", I)
+                exx.assume(z3.And(d >= 1, d <= BI.to_int(bound), z3.ToReal(n_) == r * z3.ToReal(d)))
+                exx.assume(z3.Implies(z3.IsInt(x), r == x))
+                return r
+            return Builtin("limit_denominator", limit)
         if attr in ("denominator", "numerator") and (is_sym_real(o) or is_sym_int(o) or
                                                      isinstance(o, (int, Fraction))):
             if isinstance(o, (int, Fraction)):
